@@ -1,4 +1,5 @@
 import Secp.Proofs.GroupLaw
+import Secp.Proofs.EvalBits
 /-!
 # The Montgomery ladder of `multiply` computes `[k]P` for every bit string (C01)
 
@@ -9,16 +10,6 @@ open WeierstrassCurve
 
 variable {α : Type} {F : FieldOps α} {K : Type} [Field K] [DecidableEq K] (L : Lawful F K) (C : CurveOK (7 : K))
 
-/-- value of a bit (the ladder branches on `bits[i] == 0`) -/
-def bitVal (b : Nat) : Nat := if b = 0 then 0 else 1
-
-/-- integer denoted by a most-significant-first list of bits, starting from accumulator `m` -/
-def evalMsb (m : Nat) : List Nat → Nat
-  | [] => m
-  | b :: bs => evalMsb (2 * m + bitVal b) bs
-
-/-- integer denoted by a little-endian list of bits -/
-def evalBits (bits : List Nat) : Nat := evalMsb 0 bits.reverse
 
 theorem ladder_inv (hc : CurveConsts L) (P : Pt α) (hP : PtValid L P) (bs : List Nat) (st : Pt α × Pt α) (m : Nat)
     (h0 : PtValid L st.1) (h1 : PtValid L st.2)
